@@ -30,6 +30,9 @@ pub struct Scn {
     pub pause_resume: bool,
     pub graceful: bool,
     pub failpoints: bool,
+    /// 0..2 workers die and are replaced, one after the other, before the recorded history starts (the accept thread's
+    /// handle list is then no longer in index order, the second fault hits a handle that has moved)
+    pub prior_faults: usize,
 }
 
 impl Scn {
@@ -52,6 +55,7 @@ impl Scn {
             pause_resume: r.chance(1, 3),
             graceful: r.chance(1, 2),
             failpoints: r.chance(2, 3),
+            prior_faults: if r.chance(1, 4) { 1 + r.usize(2) } else { 0 },
         }
     }
     pub fn to_json(&self) -> Value {
@@ -59,8 +63,8 @@ impl Scn {
     }
     pub fn shape(&self) -> String {
         format!(
-            "w{} l{} {:?} {:?} t{}x{} pr{} g{} f{}",
-            self.workers, self.limit, self.listeners, self.rt, self.client_threads, self.conns_per_thread, self.pause_resume as u8, self.graceful as u8, self.failpoints as u8
+            "w{} l{} {:?} {:?} t{}x{} pr{} g{} f{} pf{}",
+            self.workers, self.limit, self.listeners, self.rt, self.client_threads, self.conns_per_thread, self.pause_resume as u8, self.graceful as u8, self.failpoints as u8, self.prior_faults
         )
     }
 }
@@ -79,6 +83,7 @@ pub struct Seen {
     pub aborted_by_client: u64,
     pub failpoint_hits: u64,
     pub pause_resume_cycles: u64,
+    pub prior_fault_preludes: u64,
 }
 
 pub enum Outcome {
@@ -125,6 +130,28 @@ pub fn run_scenario(scn: &Scn, seen: &mut Seen) -> Outcome {
     }
     let mut fails: Vec<Fail> = Vec::new();
     let nl = scn.listeners.len();
+    let mut pre_instances: BTreeMap<u64, u64> = BTreeMap::new();
+    if scn.prior_faults > 0 && scn.workers >= 2 {
+        match run.fault_prelude(scn.prior_faults, scn.workers) {
+            Ok(()) => {
+                // the history proper starts here; service instances created so far stay known
+                for r in verif::log_since(0) {
+                    if let Ev::User { kind: "factory_new", a, b, .. } = &r.ev {
+                        pre_instances.insert(*b, *a);
+                    }
+                }
+                verif::start_recording();
+                seen.prior_fault_preludes += 1;
+            }
+            Err(e) => {
+                let _ = run.stop(false, Duration::from_secs(15));
+                let _ = run.join(Duration::from_secs(15));
+                verif::stop_recording();
+                engine::wait_threads_gone(baseline_threads, Duration::from_secs(10));
+                return Outcome::Inconclusive(e);
+            }
+        }
+    }
 
     // ---- stress phase: concurrent clients, mixed behaviour
     let open: Arc<Mutex<Vec<Client>>> = Arc::new(Mutex::new(Vec::new()));
@@ -390,7 +417,7 @@ pub fn run_scenario(scn: &Scn, seen: &mut Seen) -> Outcome {
     // ---- history oracles
     let mut connect_listener: HashMap<u64, u64> = HashMap::new();
     let mut ident: HashMap<u64, (u64, u64)> = HashMap::new();
-    let mut instance_listener: BTreeMap<u64, u64> = BTreeMap::new();
+    let mut instance_listener: BTreeMap<u64, u64> = pre_instances.clone();
     let mut dup: HashSet<u64> = HashSet::new();
     for (i, rec) in log.iter().enumerate() {
         if let Ev::User { kind, a, b, c } = &rec.ev {
